@@ -56,3 +56,51 @@ def ok():
         'scope:block-shadow-mutability': _main('    let mut x: int = 1\n    if true {\n        let x: int = 2\n        (println x)\n    }\n    set x 4\n    (println x)'),
         'scope:block-shadow-type': _main('    let x: int = 1\n    if true {\n        let x: string = "in"\n        (println x)\n    }\n    (println (+ x 1))'),
     }
+
+
+# ------------------------------------------------------------------------------------------------ name used after its block
+EXIT_KINDS = ['if', 'else', 'while-body', 'for-body', 'nested']
+EXIT_ENDINGS = ['falls-through', 'return', 'break', 'continue', 'return-in-nested-if', 'infinite-loop']
+EXIT_POSITIONS = ['after-block', 'after-loop', 'outer-later']
+
+
+def exit_family():
+    """name used after the block that declared it x how the block ends x kind of block x where the later use is.
+    -> {key: progen AST}; every program is ill-formed (z is out of scope at the use): all three tools must refuse it.
+    The declaring block is never entered at run time, so a tool that wrongly accepts the program reaches the use."""
+    import lang_findings
+    N = lang_findings.N; V = lang_findings.V; P = lang_findings.P; seq = lang_findings.seq; fn = lang_findings.fn; prog = lang_findings.prog
+    n_, i_, acc_, k_, z_ = 2, 3, 4, 5, 6
+    use = ('set', acc_, ('bin', 'add', V(acc_), V(z_)))
+    out = {}
+    for kind in EXIT_KINDS:
+        for ending in EXIT_ENDINGS:
+            for posn in EXIT_POSITIONS:
+                end = {'falls-through': P(V(z_)), 'return': ('ret', V(z_)), 'break': ('break',), 'continue': ('continue',),
+                       'return-in-nested-if': ('if', ('bin', 'gt', V(z_), N(0)), ('ret', V(z_)), ('skip',)),
+                       'infinite-loop': ('while', ('bool', True), ('if', ('bin', 'gt', V(z_), N(0)), ('ret', V(z_)), ('skip',)))}[ending]
+                inner = seq(('let', False, z_, 'int', N(5)), end)
+                if kind == 'if':
+                    block = ('if', ('bin', 'gt', V(n_), N(100)), inner, ('skip',))
+                elif kind == 'else':
+                    block = ('if', ('bin', 'le', V(n_), N(100)), P(N(0)), inner)
+                elif kind == 'while-body':
+                    block = seq(('let', True, k_, 'int', N(0)), ('while', ('bin', 'lt', V(k_), N(0)), seq(('set', k_, ('bin', 'add', V(k_), N(1))), inner)))
+                elif kind == 'for-body':
+                    block = ('for', k_, N(0), N(0), inner)
+                else:
+                    block = ('if', ('bin', 'gt', V(n_), N(100)), ('if', ('bin', 'gt', V(n_), N(200)), inner, ('skip',)), ('skip',))
+                if posn == 'after-block':
+                    body = seq(('set', i_, ('bin', 'add', V(i_), N(1))), block, use)
+                    after = []
+                elif posn == 'outer-later':
+                    body = seq(('set', i_, ('bin', 'add', V(i_), N(1))), ('if', ('bin', 'ge', V(n_), N(0)), seq(block, P(N(1))), ('skip',)), use)
+                    after = []
+                else:
+                    body = seq(('set', i_, ('bin', 'add', V(i_), N(1))), block)
+                    after = [use]
+                t = fn(1, [(n_, 'int')], 'int', seq(*([('let', True, i_, 'int', N(0)), ('let', True, acc_, 'int', N(0)),
+                                                       ('while', ('bin', 'lt', V(i_), N(2)), body)] + after + [('ret', V(acc_))])))
+                m = fn(0, [], 'int', seq(P(('call', 1, [N(1)])), ('ret', N(0))))
+                out['scope-exit:%s:%s:%s' % (kind, ending, posn)] = prog([t, m])
+    return out
